@@ -363,6 +363,7 @@ func overlayFiles(sel []*harness, native bool) map[string]string {
 		zz = "zzvt_native.go.txt"
 	}
 	ov[filepath.Join(*flagRepo, "internal/zzvt/zzvt.go")] = filepath.Join(v, "zzvt", zz)
+	ov[filepath.Join(*flagRepo, "internal/zzvt/common.go")] = filepath.Join(v, "zzvt", "zzvt_common.go.txt")
 	ov[filepath.Join(*flagRepo, "pkg/Rust-VRF/vrf-func-ffi/src/vrf.go")] = filepath.Join(v, "stubs/vrf.go.txt")
 	ov[filepath.Join(*flagRepo, "pkg/erasure_coding/erasure_coding.go")] = filepath.Join(v, "stubs/erasure.go.txt")
 	// all harness files of the packages involved (helpers live next to harnesses)
